@@ -109,6 +109,21 @@ def run(cx, rep):
         rep.ob("C12.2", cname, not missing,
                "%s.validate rejects on %s but %s.reportDecodeError has no corresponding test and does not end in an unconditional error: such a value is rejected with an empty error list" % (
                    cname, sorted(missing), cname), mod.loc(r), sample={"class": cname, "validate_tests": sorted(map(str, av)), "report_tests": sorted(map(str, ar)), "always_reports": bool(always)})
+        # loops over the input: the reporter must not stop earlier than the validator
+        def loop_tests(fn, inp):
+            out = set()
+            for n in walk(fn):
+                if n["type"] == "ForStatement" and n.get("test") is not None and inp in s(n["test"]):
+                    out.add(s(n["test"]))
+                if n["type"] == "WhileStatement" and inp in s(n["test"]):
+                    out.add(s(n["test"]))
+            return out
+        lv = {t.replace(vin, "$in") for t in loop_tests(v["function"], vin)}
+        lr = {t.replace(rin, "$in") for t in loop_tests(r["function"], rin)}
+        extra = lr - lv
+        rep.ob("C12.2", "%s/loops" % cname, not (lv and extra),
+               "%s.reportDecodeError walks the input with %s while validate() walks it with %s: positions the validator rejects are never reported" % (cname, sorted(extra), sorted(lv)),
+               mod.loc(r), sample={"class": cname, "validate_loops": sorted(lv), "report_loops": sorted(lr)})
     rep.floor("C12.2", "classes with validate+report", n_cls, 18)
     # ---------------------------------------------------------------- C12.3
     rep.rule("C12.3", "path discipline")
